@@ -434,6 +434,13 @@ fn execute_f(case: Value) -> RunResult {
                         signature: format!("C18/transcript-differs-at-end{}", lit_suffix),
                         detail: json!({"splitting": k, "expected_stdout_prefix": exp_out, "observed_stdout": body, "expected_stderr_prefix": exp_err, "observed_stderr": cum_err}),
                     });
+                } else if body != exp_out || cum_err != exp_err {
+                    // the lines entered never closed their lists: they are not a form of the
+                    // session, and nothing may be evaluated or printed on their account
+                    violation = Some(Violation {
+                        signature: format!("C18/output-for-unfinished-input-at-eof{}", lit_suffix),
+                        detail: json!({"splitting": k, "extra_stdout": &body[exp_out.len()..], "extra_stderr": &cum_err[exp_err.len()..]}),
+                    });
                 }
             }
         }
